@@ -149,11 +149,13 @@ Proof. reflexivity. Qed.
 Lemma triple_eq {A B C} : forall (a a' : A) (b b' : B) (c c' : C), a = a' -> b = b' -> c = c' -> (a, b, c) = (a', b', c').
 Proof. intros; subst; reflexivity. Qed.
 
+(* [meta_enc_b s c] (RoundTripSim.v): an encoding is in force at a write_meta.  With none the fixed writer hands
+   the JSON on as bytes, while [call_prepared] (C01) and DomSpec.call_body (C05) describe the text path only. *)
 Lemma view_of_record : forall s s' cur c line,
-  lvl_ok s cur -> call_good c -> do_call c s = (s', Ok tt) ->
+  lvl_ok s cur -> call_good c -> meta_enc_b s c = true -> do_call c s = (s', Ok tt) ->
   rec_view (expected_record_of s line c) = expected_view s cur c.
 Proof.
-  intros s s' cur c line [Hreach Hlvl] Hg Hcall.
+  intros s s' cur c line [Hreach Hlvl] Hg Hme Hcall.
   unfold rec_view, expected_record_of, expected_record. cbn [r_id r_opts r_payload].
   destruct c as [e|e|text enc ind le mt|md enc fmt|content dt enc le]; cbn [call_good] in Hg.
   - cbn [expected_view call_opts call_payload WF.target]. apply triple_eq; [reflexivity| |reflexivity].
@@ -178,7 +180,8 @@ Proof.
     + destruct (prepared_le_out _ _ _ _ _ _ _ _ Hprep) as (y & _ & Ey & _ & Hx & _). rewrite Hlo in Ey, Hx. exact Hx.
     + eapply choice_plain; [exact WC.choice_sub_mimetypes | exact Hmt].
   - destruct Hg as (Henc & kv & ->).
-    destruct (meta_call_inv _ _ _ _ _ Hcall) as (j & d & Ej & _ & Hfmt & Hdump & Hncs). injection Ej as <-.
+    destruct (meta_call_inv _ _ _ _ _ (WF.Inv_stack _ (WF.reachable_inv _ Hreach)) Hme Hcall)
+      as (j & d & Ej & _ & Hfmt & Hdump & Hncs). injection Ej as <-.
     destruct (WC.C02_length_exact _ _ _ _ _ _ _ _ _ _ Hncs) as (body & lo & h & Hprep & _).
     cbn [expected_view call_prepared call_opts call_payload WF.target]. rewrite Hdump, Hprep. cbn [fst snd].
     assert (Hbl : body_length s (WriteMeta (WDict (JObj kv)) enc fmt) = content_length body).
@@ -235,13 +238,15 @@ Proof.
 Qed.
 
 Lemma views_of_records : forall cs s cur line, lvl_ok s cur -> Forall call_good cs -> accepted s cs ->
+  metas_encoded s cs ->
   map rec_view (expected_records s line cs) = expected_views s cur cs.
 Proof.
-  induction cs as [|c t IH]; intros s cur line Hl Hg Ha; [reflexivity|].
+  induction cs as [|c t IH]; intros s cur line Hl Hg Ha Hme; [reflexivity|].
   destruct (accepted_cons _ _ _ Ha) as (s' & Hc & Ha'). inversion Hg as [|? ? Hgc Hgt]; subst.
+  cbn [metas_encoded] in Hme. destruct Hme as [Hmc Hmt]. rewrite Hc in Hmt. cbn [fst] in Hmt.
   cbn [expected_records expected_views map]. rewrite Hc. cbn [fst].
-  rewrite (view_of_record s s' cur c line Hl Hgc Hc). f_equal.
-  apply IH; [eapply lvl_ok_step; eauto | exact Hgt | exact Ha'].
+  rewrite (view_of_record s s' cur c line Hl Hgc Hmc Hc). f_equal.
+  apply IH; [eapply lvl_ok_step; eauto | exact Hgt | exact Ha' | exact Hmt].
 Qed.
 
 Lemma main_view_of_record : forall enc0 ver s0, writer_init enc0 ver = (s0, Ok tt) -> enc_ok enc0 ->
@@ -258,26 +263,26 @@ Proof.
 Qed.
 
 Lemma views_of_records_main : forall enc0 ver s0 cs,
-  writer_init enc0 ver = (s0, Ok tt) -> enc_ok enc0 -> Forall call_good cs -> accepted s0 cs ->
+  writer_init enc0 ver = (s0, Ok tt) -> enc_ok enc0 -> Forall call_good cs -> accepted s0 cs -> metas_encoded s0 cs ->
   map rec_view (main_record enc0 ver :: expected_records s0 1 cs) = main_view enc0 ver :: expected_views s0 AtMain cs.
 Proof.
-  intros enc0 ver s0 cs Hi He Hg Ha. cbn [map]. rewrite (main_view_of_record _ _ _ Hi He). f_equal.
-  apply views_of_records; [eapply lvl_ok_init; exact Hi | exact Hg | exact Ha].
+  intros enc0 ver s0 cs Hi He Hg Ha Hme. cbn [map]. rewrite (main_view_of_record _ _ _ Hi He). f_equal.
+  apply views_of_records; [eapply lvl_ok_init; exact Hi | exact Hg | exact Ha | exact Hme].
 Qed.
 
 (* the hypothesis of DomSpecFacts.C05_dom_round_trip, from C01 *)
 Theorem reader_returns_expected_of_C01 : forall orc t b cs s0,
   writer_init (tree_encoding t) (tree_version t) = (s0, Ok tt) -> tree_calls t = Ok cs ->
   enc_ok (tree_encoding t) -> Forall call_good cs -> accepted s0 cs -> b = w_out (snd (run_calls s0 cs)) ->
-  guesses_ok s0 cs -> oracle_ok orc cs -> (Z.of_nat (length b) <= sys_maxsize)%Z ->
+  metas_encoded s0 cs -> guesses_ok s0 cs -> oracle_ok orc cs -> (Z.of_nat (length b) <= sys_maxsize)%Z ->
   reader_returns_expected orc t b.
 Proof.
-  intros orc t b cs s0 Hi Hc He Hg Ha -> Hgs Ho Hsz s0' cs' Hi' Hc'.
+  intros orc t b cs s0 Hi Hc He Hg Ha -> Hme Hgs Ho Hsz s0' cs' Hi' Hc'.
   rewrite Hi in Hi'. injection Hi' as <-. rewrite Hc in Hc'. injection Hc' as <-.
   exists (main_record (tree_encoding t) (tree_version t) :: expected_records s0 1 cs). split.
   - apply C01_round_trip; try assumption. unfold default_chunk. lia.
   - cbn [map]. rewrite (main_view_of_record _ _ _ Hi He). f_equal.
-    apply views_of_records; [eapply lvl_ok_init; exact Hi | exact Hg | exact Ha].
+    apply views_of_records; [eapply lvl_ok_init; exact Hi | exact Hg | exact Ha | exact Hme].
 Qed.
 
 (* ================================================================================================ *)
@@ -684,6 +689,17 @@ Definition tree_oracle_ok (orc : oracle) (t : dtree) : Prop :=
 Definition tree_guesses_ok (t : dtree) : Prop :=
   forall s0 cs, writer_init (tree_encoding t) (tree_version t) = (s0, Ok tt) -> tree_calls t = Ok cs -> guesses_ok s0 cs.
 
+(* at every metadata section the tree writes an encoding is in force (C01's [metas_encoded], RoundTripSim.v): with the
+   fixed write_meta a tree without any encoding (the DOM default: encoding None) now serialises its metadata as
+   bytes, which the reader hands to json.loads as bytes; [tree_oracle_ok] (the JSON text) and DomSpec.expected_view
+   (the text path) do not describe that.  It holds whenever the tree's main section has an encoding
+   ([tree_metas_encoded_main]). *)
+Definition tree_metas_encoded (t : dtree) : Prop :=
+  forall s0 cs, writer_init (tree_encoding t) (tree_version t) = (s0, Ok tt) -> tree_calls t = Ok cs -> metas_encoded s0 cs.
+
+Lemma tree_metas_encoded_main : forall t, wv_truthy (tree_encoding t) = true -> tree_metas_encoded t.
+Proof. intros t H s0 cs Hi _. eapply metas_encoded_init; eauto. Qed.
+
 (* dom_write, unpacked for the C01 side *)
 Lemma dom_write_accepted : forall t b, dom_write t = Ok b ->
   exists s0 cs, writer_init (tree_encoding t) (tree_version t) = (s0, Ok tt) /\ tree_calls t = Ok cs /\
@@ -695,10 +711,10 @@ Qed.
 
 Theorem reader_returns_expected_tree : forall orc t b,
   tree_encs_ok t = true -> tree_indents_ok t = true -> dom_write t = Ok b ->
-  tree_oracle_ok orc t -> tree_guesses_ok t -> (Z.of_nat (length b) <= sys_maxsize)%Z ->
+  tree_oracle_ok orc t -> tree_metas_encoded t -> tree_guesses_ok t -> (Z.of_nat (length b) <= sys_maxsize)%Z ->
   reader_returns_expected orc t b.
 Proof.
-  intros orc t b He Hi Hw Ho Hg Hsz.
+  intros orc t b He Hi Hw Ho Hme Hg Hsz.
   destruct (dom_write_accepted t b Hw) as (s0 & cs & Hinit & Hc & Ha & Hb).
   eapply reader_returns_expected_of_C01; eauto.
   - apply tree_enc_ok. exact He.
@@ -708,11 +724,11 @@ Qed.
 Theorem C05_full : forall orc t b,
   typed_tree t = true -> tree_encs_ok t = true -> tree_indents_ok t = true ->
   dom_write t = Ok b ->
-  tree_oracle_ok orc t -> tree_guesses_ok t ->
+  tree_oracle_ok orc t -> tree_metas_encoded t -> tree_guesses_ok t ->
   (Z.of_nat (length b) <= sys_maxsize)%Z ->
   dom_read orc b = Ok (normalise t).
 Proof.
-  intros orc t b Ht He Hi Hw Ho Hg Hsz. apply C05_dom_round_trip; [exact Ht | exact Hw|].
+  intros orc t b Ht He Hi Hw Ho Hme Hg Hsz. apply C05_dom_round_trip; [exact Ht | exact Hw|].
   apply reader_returns_expected_tree; assumption.
 Qed.
 
@@ -760,11 +776,11 @@ Qed.
 Theorem C05_full_aligned : forall orc t b,
   typed_tree t = true -> tree_encs_aligned t = true -> tree_indents_ok t = true ->
   dom_write t = Ok b ->
-  tree_oracle_ok orc t ->
+  tree_oracle_ok orc t -> tree_metas_encoded t ->
   (Z.of_nat (length b) <= sys_maxsize)%Z ->
   dom_read orc b = Ok (normalise t).
 Proof.
-  intros orc t b Ht He Hi Hw Ho Hsz.
+  intros orc t b Ht He Hi Hw Ho Hme Hsz.
   apply C05_full; try assumption; [apply tree_aligned_ok; exact He | apply tree_guesses_aligned; exact He].
 Qed.
 
@@ -866,14 +882,14 @@ Qed.
 Theorem C06_full : forall orc t b,
   typed_tree t = true -> tree_encs_ok t = true -> tree_indents_ok t = true ->
   dom_write t = Ok b ->
-  tree_oracle_ok orc t -> tree_guesses_ok t ->
+  tree_oracle_ok orc t -> tree_metas_encoded t -> tree_guesses_ok t ->
   (Z.of_nat (length b) <= sys_maxsize)%Z ->
   exists t', dom_read orc b = Ok t' /\ t' = normalise t /\
              dom_write t' = Ok b /\ normalise t' = t' /\
              (forall b', dom_write t' = Ok b' -> dom_read orc b' = Ok t').
 Proof.
-  intros orc t b Ht He Hi Hw Ho Hg Hsz. exists (normalise t).
-  pose proof (C05_full orc t b Ht He Hi Hw Ho Hg Hsz) as Hr.
+  intros orc t b Ht He Hi Hw Ho Hme Hg Hsz. exists (normalise t).
+  pose proof (C05_full orc t b Ht He Hi Hw Ho Hme Hg Hsz) as Hr.
   pose proof (C06_reserialise_full t b Ht He Hi Hw) as Hw'.
   split; [exact Hr|]. split; [reflexivity|]. split; [exact Hw'|]. split; [apply C06_normalise_idem_typed; exact Ht|].
   intros b' Hb'. rewrite Hw' in Hb'. injection Hb' as <-. exact Hr.
@@ -882,13 +898,13 @@ Qed.
 Theorem C06_full_aligned : forall orc t b,
   typed_tree t = true -> tree_encs_aligned t = true -> tree_indents_ok t = true ->
   dom_write t = Ok b ->
-  tree_oracle_ok orc t ->
+  tree_oracle_ok orc t -> tree_metas_encoded t ->
   (Z.of_nat (length b) <= sys_maxsize)%Z ->
   exists t', dom_read orc b = Ok t' /\ t' = normalise t /\
              dom_write t' = Ok b /\ normalise t' = t' /\
              (forall b', dom_write t' = Ok b' -> dom_read orc b' = Ok t').
 Proof.
-  intros orc t b Ht He Hi Hw Ho Hsz.
+  intros orc t b Ht He Hi Hw Ho Hme Hsz.
   apply C06_full; try assumption; [apply tree_aligned_ok; exact He | apply tree_guesses_aligned; exact He].
 Qed.
 
@@ -909,11 +925,13 @@ Example ex_indents : tree_indents_ok ex_tree = true.
 Proof. vm_compute. reflexivity. Qed.
 Example ex_oracle : tree_oracle_ok ex_orc ex_tree.
 Proof. oracle_tac. Qed.
+Example ex_metas : tree_metas_encoded ex_tree.
+Proof. apply tree_metas_encoded_main. vm_compute. reflexivity. Qed.
 Example ex_size : (Z.of_nat (length ex_bytes) <= sys_maxsize)%Z.
 Proof. vm_compute. discriminate. Qed.
 
 Example ex_C05_full : dom_read ex_orc ex_bytes = Ok (normalise ex_tree).
-Proof. exact (C05_full_aligned ex_orc ex_tree ex_bytes ex_typed ex_encs_aligned ex_indents ex_write ex_oracle ex_size). Qed.
+Proof. exact (C05_full_aligned ex_orc ex_tree ex_bytes ex_typed ex_encs_aligned ex_indents ex_write ex_oracle ex_metas ex_size). Qed.
 
 Example ex2_encs : tree_encs_ok ex_tree2 = true.
 Proof. vm_compute. reflexivity. Qed.
@@ -923,6 +941,8 @@ Example ex2_indents : tree_indents_ok ex_tree2 = true.
 Proof. vm_compute. reflexivity. Qed.
 Example ex2_oracle : tree_oracle_ok ex_orc2 ex_tree2.
 Proof. oracle_tac. Qed.
+Example ex2_metas : tree_metas_encoded ex_tree2.
+Proof. apply tree_metas_encoded_main. vm_compute. reflexivity. Qed.
 Example ex2_guesses : tree_guesses_ok ex_tree2.
 Proof.
   intros s0 cs Hi Hc. vm_compute in Hi. injection Hi as <-. vm_compute in Hc. injection Hc as <-.
@@ -933,12 +953,12 @@ Proof. vm_compute. discriminate. Qed.
 
 Example ex2_C05_full : dom_read ex_orc2 ex_bytes2 = Ok (normalise ex_tree2).
 Proof.
-  exact (C05_full ex_orc2 ex_tree2 ex_bytes2 ex2_typed ex2_encs ex2_indents (proj1 ex2_write) ex2_oracle ex2_guesses ex2_size).
+  exact (C05_full ex_orc2 ex_tree2 ex_bytes2 ex2_typed ex2_encs ex2_indents (proj1 ex2_write) ex2_oracle ex2_metas ex2_guesses ex2_size).
 Qed.
 
 Example ex2_C06_full : exists t', dom_read ex_orc2 ex_bytes2 = Ok t' /\ t' = normalise ex_tree2 /\
   dom_write t' = Ok ex_bytes2 /\ normalise t' = t' /\ (forall b', dom_write t' = Ok b' -> dom_read ex_orc2 b' = Ok t').
 Proof.
-  exact (C06_full ex_orc2 ex_tree2 ex_bytes2 ex2_typed ex2_encs ex2_indents (proj1 ex2_write) ex2_oracle ex2_guesses ex2_size).
+  exact (C06_full ex_orc2 ex_tree2 ex_bytes2 ex2_typed ex2_encs ex2_indents (proj1 ex2_write) ex2_oracle ex2_metas ex2_guesses ex2_size).
 Qed.
 
